@@ -418,7 +418,7 @@ def c_parts(case, obs):
             lc.c_span(new_spec), fv, strictarg, lib.clist('(%s, %s)' % kv for kv in fills), exp]
 
 
-SHARED = {0: 'span', 3: 'list (string * series cell)'}   # components bound once per group: old span, old variables (few distinct values)
+SHARED = {}          # components `let`-bound once per group: none (measured: for these terms `let` sharing is slower than plain repetition)
 GROUP = 300
 
 
@@ -428,9 +428,8 @@ def c_case(case, obs):
 
 
 def correspond(cases, obs, tag, tier):
-    """Consecutive cases are grouped; the old span, its tables, the old variables and the new span are `let`-bound once per group
-    (Coq elaborates each distinct term once).  The fast pass reports the groups with a disagreement; their cases are then
-    re-run one by one so that the indices returned are exact."""
+    """Consecutive cases are grouped (one Coq file per group).  The fast pass reports the groups with a disagreement; their cases
+    are then re-run so that the indices returned are exact."""
     lc.reset_strings()
     parts, idx, bad = [], [], []
     for i, (c, o) in enumerate(zip(cases, obs)):
@@ -459,7 +458,7 @@ def correspond(cases, obs, tag, tier):
         items.append('(%s\n [%s])' % ('\n '.join(lets), ';\n  '.join(terms)))
         members.append(idx[k:k + GROUP])
     pre = PREAMBLE + lc.string_table()
-    b, errors = lib.run_coq_cases(tag, pre, items, 'rgbad_indices 0%nat cs', shard=3)
+    b, errors = lib.run_coq_cases(tag, pre, items, 'rgbad_indices 0%nat cs', shard=1)
     if errors:
         return sorted(bad), errors
     suspects = [i for g in b for i in members[g]]
